@@ -407,7 +407,12 @@ impl<'a> GeneratorState<'a> {
                                 acc_in_use = false;
                                 self.acc_in_use = false;
                             }
-                            _ => unreachable!(),
+                            _ => {
+                                // e.g. the result of a void function
+                                return Err(self
+                                    .compiler_state
+                                    .syntax_error("Bad right value in assignement", pos))
+                            }
                         };
                         match left {
                             ExprType::Absolute(a, b, c) => {
